@@ -1,11 +1,12 @@
 #!/bin/sh
 # Builds the extracted model + driver into /verif/build/driver/model_driver
+# Command modules are listed in driver/cmds.txt (one file name per line).
 set -e
 cd "$(dirname "$0")"
 OUT=../build/driver
 mkdir -p $OUT
-cp ../coq/model.ml ../coq/model.mli util.ml cmd_*.ml main.ml $OUT/ 2>/dev/null || cp ../coq/model.ml ../coq/model.mli util.ml main.ml $OUT/
+CMDS=$(cat cmds.txt 2>/dev/null | tr '\n' ' ')
+cp ../coq/model.ml ../coq/model.mli util.ml $CMDS main.ml $OUT/
 cd $OUT
-CMDS=$(ls cmd_*.ml 2>/dev/null || true)
 ocamlfind ocamlopt -O3 -w -a model.mli model.ml util.ml $CMDS main.ml -o model_driver 2>/dev/null || \
 ocamlfind ocamlopt -w -a model.mli model.ml util.ml $CMDS main.ml -o model_driver
